@@ -41,25 +41,26 @@ pub fn build_ruleset_with(env: &J, rules: Vec<Rule>) -> Result<Built, String> {
         }
     }
     if let Some(ss) = env["syms"].as_array() {
-        // every name is first registered with a stale value through with_symbol, then the real table through ONE
-        // with_symbols call: a symbol resolves to the value most recently registered under its name (C10, C15)
-        // (both orders: even positions stale by with_symbol then real by with_symbols, odd positions stale in the
-        // with_symbols table and real by a later with_symbol)
+        // a symbol resolves to the value most recently registered under its name, and registering a table keeps what was
+        // there before (C10, C15).  Every symbol is registered in one of three ways, by position: (0) stale by with_symbol, real in the with_symbols table; (1) stale in the table, real by a
+        // later with_symbol; (2) real by with_symbol BEFORE with_symbols and absent from the table (merging must keep it)
         let mut table: Vec<(String, Value)> = Vec::new();
         let mut later: Vec<(String, Value)> = Vec::new();
         for (i, s) in ss.iter().enumerate() {
             let name = uncps(&s[0])?;
-            if i % 2 == 0 {
-                b = b.with_symbol(name.clone(), Value::String("stale".into()));
-                table.push((name, from_model(&s[1])?));
-            } else {
-                table.push((name.clone(), Value::String("stale".into())));
-                later.push((name, from_model(&s[1])?));
+            match (i + ss.len()) % 3 {
+                0 => {
+                    b = b.with_symbol(name.clone(), Value::String("stale".into()));
+                    table.push((name, from_model(&s[1])?));
+                }
+                1 => {
+                    table.push((name.clone(), Value::String("stale".into())));
+                    later.push((name, from_model(&s[1])?));
+                }
+                _ => b = b.with_symbol(name, from_model(&s[1])?),
             }
         }
-        if !table.is_empty() {
-            b = b.with_symbols(Symbols::from(table)).map_err(|e| format!("with_symbols: {e}"))?;
-        }
+        b = b.with_symbols(Symbols::from(table)).map_err(|e| format!("with_symbols: {e}"))?;
         for (n, v) in later {
             b = b.with_symbol(n, v);
         }
